@@ -247,3 +247,30 @@ def exc_str(e):
 
 def tb_str(e):
     return ''.join(traceback.format_exception(type(e), e, e.__traceback__))[-1500:]
+
+
+def arg_forms(lst):
+    """Other legal spellings of a list argument (channel lists, override lists): the same elements in another
+    container or element type.  -> [(form name, value)].  A form the library refuses is observed, not judged;
+    a form it accepts must give the list form's answer."""
+    import numpy as np
+    lst = list(lst)
+    out = [('tuple', tuple(lst))]
+    ints = [isinstance(x, (int, np.integer)) and not isinstance(x, bool) for x in lst]
+    strs = [isinstance(x, str) for x in lst]
+    if lst and all(ints):
+        out.append(('ndarray-int', np.array(lst, dtype=np.int64)))
+        out.append(('ndarray-int32', np.array(lst, dtype=np.int32)))
+    if lst and all(strs):
+        out.append(('ndarray-str', np.array(lst)))
+    if any(ints):
+        out.append(('list-npint', [np.int64(x) if i else x for x, i in zip(lst, ints)]))
+        out.append(('list-npintp', [np.intp(x) if i else x for x, i in zip(lst, ints)]))
+    if any(strs):
+        out.append(('list-npstr', [np.str_(x) if s else x for x, s in zip(lst, strs)]))
+    return out
+
+
+def pick_form(rng, lst):
+    f = arg_forms(lst)
+    return f[int(rng.integers(len(f)))]
